@@ -28,6 +28,7 @@ import (
 	"bufio"
 	"bytes"
 	"container/heap"
+	"encoding/json"
 	"fmt"
 	"io"
 	"log"
@@ -144,11 +145,29 @@ func vbDoClientW(i *IPC, nat, fp, offer, mode string, bar *vbBarrier) string {
 	}
 	switch mode {
 	case "v", "a":
-		req := messages.ClientPollRequest{Offer: offer, NAT: nat}
+		var b []byte
+		var err error
 		if fp != "-" {
-			req.Fingerprint = fp
+			req := messages.ClientPollRequest{Offer: offer, NAT: nat, Fingerprint: fp}
+			b, err = req.EncodeClientPollRequest()
+		} else {
+			// a client that names no bridge: the fingerprint field is absent (old clients) or empty on the wire; the
+			// encoder of common/messages would fill the default in, so the message is built here
+			var body []byte
+			if len(offer)%2 == 0 {
+				body, err = json.Marshal(struct {
+					Offer string `json:"offer"`
+					NAT   string `json:"nat"`
+				}{offer, nat})
+			} else {
+				body, err = json.Marshal(struct {
+					Offer       string `json:"offer"`
+					NAT         string `json:"nat"`
+					Fingerprint string `json:"fingerprint"`
+				}{offer, nat, ""})
+			}
+			b = append([]byte(messages.ClientVersion+"\n"), body...)
 		}
-		b, err := req.EncodeClientPollRequest()
 		if err != nil {
 			return "err:encode"
 		}
